@@ -49,6 +49,54 @@ class DecStub:
     __rtruediv__ = _bin('rdiv')
     __rpow__ = _bin('rpow')
 
+    def _rec(self, what, ret):
+        LOG.append((what,))
+        return ret
+
+    def __int__(self):
+        return self._rec('int', 7)
+
+    def __floor__(self):
+        return self._rec('floor', 7)
+
+    def __ceil__(self):
+        return self._rec('ceil', 7)
+
+    def __round__(self, nd=None):
+        if nd is None:
+            return self._rec('round', 7)
+        r = DecStub.__new__(DecStub)
+        r.arg = None
+        r.op = ('round', self, nd)
+        return r
+
+    def __abs__(self):
+        r = DecStub.__new__(DecStub)
+        r.arg = None
+        r.op = ('abs', self)
+        return r
+
+    def __str__(self):
+        return '7.5'
+
+    def __lt__(self, other):
+        return self._rec('lt', True)
+
+    def __gt__(self, other):
+        return self._rec('gt', False)
+
+    def __le__(self, other):
+        return self._rec('le', True)
+
+    def __ge__(self, other):
+        return self._rec('ge', False)
+
+    def __eq__(self, other):
+        return self is other
+
+    def __hash__(self):
+        return id(self)
+
     def __neg__(self):
         r = DecStub.__new__(DecStub)
         r.arg = None
